@@ -801,6 +801,28 @@ func (g *VCGen) loopHeader(b *ssa.BasicBlock, li *loopInfo, preds []*ssa.BasicBl
 	if fs := g.snapshotSliceFacts(pre, st); len(fs) > 0 {
 		g.assumeHere(and(fs...))
 	}
+	// a private library iterator/builder that the loop body never uses keeps its state (the loop only havocs the
+	// objects it calls methods on, although they share a model heap)
+	for v, sv := range g.vals {
+		call, ok := v.(*ssa.Call)
+		if !ok || !privateLibObj(call) {
+			continue
+		}
+		usedInLoop := false
+		for _, r := range *call.Referrers() {
+			if ri, ok := r.(ssa.Instruction); ok && li.blocks[ri.Block()] {
+				if _, isDbg := r.(*ssa.DebugRef); !isDbg {
+					usedInLoop = true
+				}
+			}
+		}
+		if usedInLoop {
+			continue
+		}
+		if heap, ok := g.libObjHeap(call); ok && g.heapTerm(st, heap) != g.heapTerm(pre, heap) {
+			g.assumeHere(fmt.Sprintf("(= (select %s %s) (select %s %s))", g.heapTerm(st, heap), sv.T, g.heapTerm(pre, heap), sv.T))
+		}
+	}
 	if all {
 		for _, l := range g.callbacksKeepLocs(pre) {
 			a, b := g.heapTerm(pre, l.heap), g.heapTerm(st, l.heap)
